@@ -72,9 +72,13 @@ def attrDel (c : Cls) (dunder : Bool) (kvs : List (Key × Tr ι)) (k : String) :
 /-! ### side conditions on the generated class table -/
 
 /-- every attribute a constructed instance carries is a protected name (otherwise constructing
-the object would store that attribute as a data item) -/
+the object would store that attribute as a data item) — and so is every name that ANY method of
+the class or its bases assigns on `self` (a setter, a context manager, a lazily created cache: an
+internal assignment to an unprotected name is routed into the data the first time that method
+runs, long after construction) -/
 def ctorAttrsProtected (c : ClassInfo) : Bool :=
-  !c.attrAccess || c.instAttrs.all (fun a => c.protectedKeys.contains a)
+  !c.attrAccess || (c.instAttrs.all (fun a => c.protectedKeys.contains a) &&
+                    c.assignedAttrs.all (fun a => c.protectedKeys.contains a))
 
 /-- the classes `_from_base` picks for nested mappings / sequences are the family's own dict and
 list class — for plain data and for synced collections of another family alike -/
